@@ -229,8 +229,9 @@ def gen_crafted(rng, target="binary"):
         # fine mode: a large sample in which one modality sits a hair (< 5e-4 of the rows) below or exactly at a usual
         # min_freq_mod threshold, so that any rounding of the frequencies before the comparison shows
         # (1 in 4 of these: ten times larger, one row is then less than 5e-5 of the sample - rounding to 4 decimals shows)
-        unit = 400 if rng.random() < 0.25 else 40
-        sizes = [unit * rng.choice([10, 15, 20, 25]) for _ in levels]
+        mult = [rng.choice([10, 15, 20, 25]) for _ in levels]
+        unit = max(40, 24000 // sum(mult)) if rng.random() < 0.25 else 40      # about 24000 rows in the larger variant
+        sizes = [unit * m for m in mult]
         nan_size = unit * rng.choice([0, 0, 5])
         total = sum(sizes) + nan_size
         thr = rng.choice([0.05, 0.1, 0.125, 0.2, 0.25])
